@@ -103,11 +103,10 @@ func (e *Engine) obligationsFor(prop string) *propRun {
 		for x := range c.usedAxioms {
 			pr.axioms[x] = true
 		}
-		for _, ob := range c.obs {
-			if len(ob.Props) == 0 || contains(ob.Props, prop) {
-				pr.obs = append(pr.obs, ob)
-			}
-		}
+		// every obligation of a function that carries the property counts: clauses filed under other properties
+		// (loop invariants, preconditions of callees) are assumed while the property's own clauses are proved, so a
+		// proof of the property in this function stands only if all of them are discharged
+		pr.obs = append(pr.obs, c.obs...)
 	}
 	return pr
 }
